@@ -55,6 +55,9 @@ type Spec[T any] struct {
 	Workers int
 	// Deadline is the backstop for the whole tier (0 = default).
 	Deadline map[string]time.Duration
+	// Prepare runs once in the parent before the workers are started (e.g. to run a model
+	// checker and publish its output through an environment variable).
+	Prepare func(tier string, rep *Report)
 	// Finish lets a check derive evidence keys from the aggregated report (optional).
 	Finish func(rep *Report)
 	// Custom, if set, replaces Gen/Run sharding entirely (engines like xstate, TLC, sched).
@@ -393,6 +396,9 @@ func (s *Spec[T]) parent(tier string) int {
 		}
 		s.Custom(tier, rep)
 	} else {
+		if s.Prepare != nil {
+			s.Prepare(tier, rep)
+		}
 		s.shardedRun(tier, rep)
 	}
 	if s.Extra != nil {
